@@ -119,6 +119,12 @@ class Flow:
             rd = self._rd(frame.fn)
             ds = [d for d in rd.defs(head, e)] if rd is not None else []
             vals = [d.node for d in ds if d.kind == "assign" and d.node is not None]
+            if not ds:
+                # the expression was re-parsed from text (loop iterables): fall back to the function's only
+                # assignment of that name
+                asg = [st for st in ast.walk(frame.fn) if isinstance(st, ast.Assign) and len(st.targets) == 1 and isinstance(st.targets[0], ast.Name) and st.targets[0].id == head]
+                if len(asg) == 1:
+                    ds, vals = [asg[0]], [asg[0].value]
             if len(ds) == 1 and len(vals) == 1 and not any(isinstance(x, ast.Name) and x.id == head for x in ast.walk(vals[0])):
                 base = self.source(vals[0], frame, loops, depth + 1)
                 if base and not base.startswith("const:"):
